@@ -68,7 +68,7 @@ def one(ctx, dn):
     ctx.cell("idkey:" + ("default" if idkey == "id" else "custom"))
     # attributes
     n0 = next(iter(m.nodes))
-    a0 = {"color": "red", "w": [1, 2, {"x": None}], "f": 1.5, "ok": True}
+    a0 = {"color": "red", "w": [1, 2, {"x": None}], "f": 1.5, "ok": True, "nothing": None, "zero": 0, "empty": ""}
     if rng.random() < 0.4:
         # attribute names that coincide with the field names of a link record
         a0.update({"source": "s-attr", "target": ["t-attr"], "time": 12})
